@@ -1,6 +1,5 @@
 (* C04/TextProofs.v — name, text family, bytea, json, bit strings. *)
 Require Import PG.Base.Bytes PG.Base.GoSlice PG.Base.Value PG.C04.Lib PG.C04.Model PG.C04.Spec PG.C04.LibProofs.
-Set Default Timeout 60.
 
 Lemma cstring_go_prefix : forall (n : bytes) fuel r,
   Forall (fun b => b2z b <> 0) n -> (length n < fuel)%nat -> cstring_go fuel (n ++ x00 :: r) = n.
